@@ -153,7 +153,12 @@ theorem dapply_track (S : Setup) (P : Prog σ) (d : DCfg σ) (st : σ) (c : Clo)
     | call s e =>
       rw [ha] at hr
       cases e with
-      | none => simp only; intro x hx'; exact h x (by rw [hs]; exact hx')
+      | none =>
+        simp only; intro x hx'
+        simp only [List.mem_cons] at hx'
+        cases hx' with
+        | inl e2 => rw [e2]; exact hfr
+        | inr e2 => exact hrest x e2
       | some e =>
         simp only
         intro x hx'
@@ -164,7 +169,12 @@ theorem dapply_track (S : Setup) (P : Prog σ) (d : DCfg σ) (st : σ) (c : Clo)
           cases e1 with
           | inl e2 => rw [e2]; exact hfr
           | inr e2 => exact hrest x e2
-    | panic => simp only; intro x hx'; exact h x (by rw [hs]; exact hx')
+    | panic =>
+      simp only; intro x hx'
+      simp only [List.mem_cons] at hx'
+      cases hx' with
+      | inl e2 => rw [e2]; exact hfr
+      | inr e2 => exact hrest x e2
 
 theorem trackOk_of (g : Graph) (d d' : DCfg σ) (h : TrackOk g d) (hs : d'.stack = d.stack) : TrackOk g d' := by
   unfold TrackOk at *; rw [hs]; exact h
@@ -218,20 +228,31 @@ theorem drun_track (S : Setup) (P : Prog σ) (n : Nat) (d : DCfg σ)
 
 theorem consult_ideal (S : Setup) (d : DCfg σ) (fr : DFrame) (hi : S.ideal = false)
     (h : fr.m = some fr.cur.owner) : consult S.toIdeal d fr = consult S d fr := by
-  unfold consult Setup.m Setup.toIdeal
+  unfold consult Setup.m Setup.toIdeal Setup.hit
   simp [hi, h]
 
-theorem dapply_ideal (S : Setup) (d : DCfg σ) (a : Act) (hx : S.F.execFirst = false) :
-    dapply S.toIdeal d a = dapply S d a := by
-  unfold dapply Setup.toIdeal
-  simp [hx]
+theorem bump_ideal (S : Setup) (fr : DFrame) (hi : S.ideal = false) (h : fr.m = some fr.cur.owner) :
+    S.toIdeal.bump fr = S.bump fr := by
+  unfold Setup.bump Setup.bumpPrev Setup.m Setup.toIdeal
+  simp [hi, h]
+
+theorem dapply_ideal (S : Setup) (d : DCfg σ) (a : Act) (hi : S.ideal = false) (hx : S.F.execFirst = false)
+    (h : TrackOk S.g d) : dapply S.toIdeal d a = dapply S d a := by
+  unfold dapply
+  cases hs : d.stack with
+  | nil => rfl
+  | cons fr rest =>
+    have hfr : fr.m = some fr.cur.owner := h fr (by rw [hs]; exact List.mem_cons_self)
+    have hxi : S.toIdeal.F.execFirst = false := hx
+    simp only [bump_ideal S fr hi hfr, hx, hxi]
+    rfl
 
 theorem dstep_ideal (S : Setup) (P : Prog σ) (d : DCfg σ) (hi : S.ideal = false)
     (hx : S.F.execFirst = false) (h : TrackOk S.g d) : dstep S.toIdeal P d = dstep S P d := by
   unfold dstep
   cases hc : d.ctl with
   | halt b => rfl
-  | resume => simp only; exact dapply_ideal S _ _ hx
+  | resume => simp only; exact dapply_ideal S _ _ hi hx (trackOk_of S.g d _ h rfl)
   | start =>
     cases hs : d.stack with
     | nil => rfl
@@ -242,7 +263,7 @@ theorem dstep_ideal (S : Setup) (P : Prog σ) (d : DCfg σ) (hi : S.ideal = fals
       rw [consult_ideal S d fr hi hfr]
       split
       · rfl
-      · exact dapply_ideal S _ _ hx
+      · exact dapply_ideal S _ _ hi hx (trackOk_of S.g d _ h (by simp only [(consult_frame S d fr).2.1]))
 
 theorem drun_ideal (S : Setup) (P : Prog σ) (n : Nat) (d : DCfg σ) (hi : S.ideal = false)
     (hF : S.F.probes = [.tnext, .fnext]) (hI : S.F.byIdentity = true) (hW : S.F.forward = true)
@@ -261,13 +282,6 @@ theorem drun_ideal (S : Setup) (P : Prog σ) (n : Nat) (d : DCfg σ) (hi : S.ide
 def brkNodes (es : List Event) : List (Option Nat) :=
   es.filterMap fun e => if e.reason = .brk then some e.node else none
 
-/-- a node that breaks: marked, and with a position -/
-def markedVis (S : Setup) (i : Nat) : Bool := S.g.posValid i && S.marked i
-
-/-- owners of the executed closures that break, most recent first -/
-def expected (S : Setup) (trace : List Clo) : List (Option Nat) :=
-  (trace.filter fun c => markedVis S c.owner).map fun c => some c.owner
-
 theorem stopReason_brk (F : LoopFacts) (mk : Nat → Bool) (d : Dbg) (i : Nat) (r : Reason)
     (_hm : d.mode ≠ .terminate) (h : stopReason F mk d (some i) = some r) : (r = .brk ↔ mk i = true) := by
   unfold stopReason shouldBreak at h
@@ -280,82 +294,160 @@ theorem stopReason_brk (F : LoopFacts) (mk : Nat → Bool) (d : Dbg) (i : Nat) (
       cases hmode : d.mode <;> simp [hmode, Mode.reason] at h
     · intro e; exact absurd e hb
 
+/-- the break events of one consultation of the reference debugger: the node about to run, iff it
+    has a position and the break condition holds for the frame's previous step -/
 theorem consult_brk (S : Setup) (d : DCfg σ) (fr : DFrame) (hi : S.ideal = true) (h : NoTerm d) :
     brkNodes (consult S d fr).2.events =
-      (if markedVis S fr.cur.owner then [some fr.cur.owner] else []) ++ brkNodes d.events := by
-  unfold consult dbgExec Setup.m markedVis
+      (if S.g.posValid fr.cur.owner && S.hit fr.prev fr.cur.owner then [some fr.cur.owner] else []) ++ brkNodes d.events := by
+  unfold consult dbgExec Setup.m
   simp only [hi, ↓reduceIte, visible]
   by_cases hv : S.g.posValid fr.cur.owner = true
   · simp only [hv, Bool.not_true, Bool.false_eq_true, ↓reduceIte, h.1, Bool.true_and]
-    cases hr : stopReason S.F S.marked d.dbg (some fr.cur.owner) with
+    cases hr : stopReason S.F (S.hit fr.prev) d.dbg (some fr.cur.owner) with
     | none =>
-      have : S.marked fr.cur.owner = false := by
+      have : S.hit fr.prev fr.cur.owner = false := by
         unfold stopReason shouldBreak at hr
-        by_cases hb : S.marked fr.cur.owner = true
+        by_cases hb : S.hit fr.prev fr.cur.owner = true
         · simp [hb] at hr
         · simpa using hb
       simp [this]
     | some r =>
-      have hiff := stopReason_brk S.F S.marked d.dbg fr.cur.owner r h.1 hr
-      by_cases hb : S.marked fr.cur.owner = true
+      have hiff := stopReason_brk S.F (S.hit fr.prev) d.dbg fr.cur.owner r h.1 hr
+      by_cases hb : S.hit fr.prev fr.cur.owner = true
       · have hrb := hiff.2 hb
         cases hcm : d.cmds <;> simp [brkNodes, hrb, hb]
       · have hrb : r ≠ .brk := fun e => hb (hiff.1 e)
         cases hcm : d.cmds <;> simp [brkNodes, hrb, hb]
   · simp [hv]
 
-def BrkInv (S : Setup) (d : DCfg σ) : Prop := brkNodes d.events = expected S d.trace
+/-- the frame holds its previous step: bumping it again changes nothing -/
+def BumpedPrev (S : Setup) (fr : DFrame) : Prop := (S.bump fr).prev = fr.prev
 
-theorem dapply_brk (S : Setup) (d : DCfg σ) (a : Act) (hx : S.F.execFirst = false) :
-    (dapply S d a).events = d.events ∧ (dapply S d a).trace = d.trace := by
+theorem bump_bumped (S : Setup) (fr : DFrame) : BumpedPrev S (S.bump fr) := by
+  unfold BumpedPrev Setup.bump Setup.bumpPrev Setup.m
+  by_cases hi : S.ideal = true
+  · simp only [hi, ↓reduceIte]
+    by_cases hs : (S.F.tracksPrev && isStep S.F S.g fr.cur.owner) = true <;> simp [hs]
+  · simp only [hi, Bool.false_eq_true, ↓reduceIte]
+    cases hm : fr.m with
+    | none => rfl
+    | some i => by_cases hs : (S.F.tracksPrev && isStep S.F S.g i) = true <;> simp [hs]
+
+/-- the reference run over the log has, for every live activation, the previous step the frame
+    holds, and has produced the break events of the session; every frame whose closure has been
+    consulted for (all but the innermost one while it is about to start) holds its previous step -/
+def RefInv (S : Setup) (d : DCfg σ) : Prop :=
+  (refRun S d.log).stack = d.stack.map (·.prev) ∧ (refRun S d.log).out = brkNodes d.events ∧
+  (∀ fr ∈ d.stack.tail, BumpedPrev S fr) ∧
+  (d.ctl = .resume → ∀ fr rest, d.stack = fr :: rest → BumpedPrev S fr)
+
+theorem refRun_cons (S : Setup) (it : LogItem) (log : List LogItem) :
+    refRun S (it :: log) = refStep S (refRun S log) it := rfl
+
+/-- the previous steps of the live activations once the innermost frame is bumped -/
+def prevsBumped (S : Setup) : List DFrame → List (Option Nat)
+  | [] => []
+  | fr :: rest => (S.bump fr).prev :: rest.map (·.prev)
+
+/-- `dapply` when the log already holds the closure of the innermost frame -/
+theorem dapply_ref (S : Setup) (d : DCfg σ) (a : Act) (hx : S.F.execFirst = false)
+    (h1 : (refRun S d.log).stack = prevsBumped S d.stack) (h2 : (refRun S d.log).out = brkNodes d.events)
+    (h3 : ∀ fr ∈ d.stack.tail, BumpedPrev S fr) : RefInv S (dapply S d a) := by
+  unfold RefInv
   unfold dapply
-  cases d.stack with
+  cases hs : d.stack with
   | nil =>
+    rw [hs] at h1
+    simp only [prevsBumped] at h1
     cases a with
-    | next c => exact ⟨rfl, rfl⟩
-    | call s e => cases e <;> exact ⟨rfl, rfl⟩
-    | panic => exact ⟨rfl, rfl⟩
+    | next c => simp [h1, h2]
+    | call s e =>
+      cases e with
+      | none => simp [h1, h2]
+      | some e => simp [refRun_cons, refStep, h1, h2]
+    | panic => simp [h1, h2]
   | cons fr rest =>
+    rw [hs] at h1 h3
+    simp only [prevsBumped] at h1
+    simp only [List.tail_cons] at h3
+    have hb := bump_bumped S fr
     cases a with
     | next c =>
       cases c with
-      | none => exact ⟨rfl, rfl⟩
-      | some c' => simp [hx]
-    | call s e => cases e <;> exact ⟨rfl, rfl⟩
-    | panic => exact ⟨rfl, rfl⟩
+      | none =>
+        simp only [leave, refRun_cons, refStep, h1, h2, List.tail_cons, true_and]
+        refine ⟨?_, ?_⟩
+        · intro x hx'; exact h3 x (List.mem_of_mem_tail hx')
+        · intro _ x r e; exact h3 x (by rw [e]; exact List.mem_cons_self)
+      | some c' =>
+        simp only [hx, Bool.false_eq_true, ↓reduceIte, List.map_cons, h1, h2, List.tail_cons, true_and]
+        exact ⟨h3, by intro e; cases e⟩
+    | call s e =>
+      cases e with
+      | none =>
+        simp only [List.map_cons, h1, h2, List.tail_cons, true_and]
+        refine ⟨h3, ?_⟩
+        intro _ x r e
+        simp only [List.cons.injEq] at e
+        rw [← e.1]; exact hb
+      | some e =>
+        simp only [refRun_cons, refStep, h1, h2, List.map_cons, List.tail_cons, true_and]
+        refine ⟨?_, by intro e'; cases e'⟩
+        intro x hx'
+        simp only [List.mem_cons] at hx'
+        cases hx' with
+        | inl e1 => rw [e1]; exact hb
+        | inr e1 => exact h3 x e1
+    | panic =>
+      simp only [List.map_cons, h1, h2, List.tail_cons, true_and]
+      exact ⟨h3, by intro e; cases e⟩
 
-theorem brkInv_dapply (S : Setup) (d : DCfg σ) (a : Act) (hx : S.F.execFirst = false) (h : BrkInv S d) :
-    BrkInv S (dapply S d a) := by
-  unfold BrkInv at *
-  rw [(dapply_brk S d a hx).1, (dapply_brk S d a hx).2]
-  exact h
-
-theorem dstep_brk (S : Setup) (P : Prog σ) (d : DCfg σ) (hi : S.ideal = true) (hx : S.F.execFirst = false)
-    (hn : NoTerm d) (h : BrkInv S d) : BrkInv S (dstep S P d) := by
+theorem dstep_ref (S : Setup) (P : Prog σ) (d : DCfg σ) (hi : S.ideal = true) (hx : S.F.execFirst = false)
+    (hn : NoTerm d) (h : RefInv S d) : RefInv S (dstep S P d) := by
+  obtain ⟨h1, h2, h3, h4⟩ := h
   unfold dstep
   cases hc : d.ctl with
-  | halt b => exact h
-  | resume => exact brkInv_dapply S _ _ hx h
+  | halt b => exact ⟨h1, h2, h3, h4⟩
+  | resume =>
+    apply dapply_ref S _ _ hx
+    · show (refRun S d.log).stack = prevsBumped S d.stack
+      rw [h1]
+      cases hs : d.stack with
+      | nil => rfl
+      | cons fr rest =>
+        simp only [prevsBumped, List.map_cons]
+        rw [h4 hc fr rest hs]
+    · exact h2
+    · exact h3
   | start =>
     cases hs : d.stack with
-    | nil => exact h
+    | nil =>
+      refine ⟨?_, h2, ?_, ?_⟩
+      · simpa [hs] using h1
+      · simp
+      · intro _ fr rest e; simp at e
     | cons fr rest =>
       have hq := consult_noterm S d fr hn
-      have hb := consult_brk S d fr hi hn
+      have hbk := consult_brk S d fr hi hn
+      have hf := consult_frame S d fr
       simp only [hx, Bool.false_eq_true, ↓reduceIte, hq.1]
-      apply brkInv_dapply S _ _ hx
-      unfold BrkInv at *
-      simp only [hb, expected, List.filter_cons]
-      by_cases hm : markedVis S fr.cur.owner = true
-      · simp only [hm, ↓reduceIte, List.map_cons, List.singleton_append, List.cons.injEq, true_and]
-        exact h
-      · simp only [hm, Bool.false_eq_true, ↓reduceIte, List.nil_append]
-        exact h
+      rw [hs] at h1 h3
+      simp only [List.map_cons] at h1
+      apply dapply_ref S _ _ hx
+      · show (refRun S (.exec fr.cur.owner :: d.log)).stack = prevsBumped S (consult S d fr).2.stack
+        rw [hf.2.1, hs, refRun_cons]
+        simp only [refStep, h1, prevsBumped, Setup.bump, Setup.m, hi, ↓reduceIte]
+      · show (refRun S (.exec fr.cur.owner :: d.log)).out = brkNodes (consult S d fr).2.events
+        rw [refRun_cons, hbk]
+        simp only [refStep, h1, h2]
+        by_cases hh : (S.g.posValid fr.cur.owner && S.hit fr.prev fr.cur.owner) = true <;> simp [hh]
+      · show ∀ x ∈ (consult S d fr).2.stack.tail, BumpedPrev S x
+        rw [hf.2.1, hs]; exact h3
 
-theorem drun_brk (S : Setup) (P : Prog σ) (n : Nat) (d : DCfg σ) (hi : S.ideal = true) (hx : S.F.execFirst = false)
-    (hn : NoTerm d) (h : BrkInv S d) : BrkInv S (drun S P n d) := by
+theorem drun_ref (S : Setup) (P : Prog σ) (n : Nat) (d : DCfg σ) (hi : S.ideal = true) (hx : S.F.execFirst = false)
+    (hn : NoTerm d) (h : RefInv S d) : RefInv S (drun S P n d) := by
   induction n generalizing d with
   | zero => exact h
-  | succ n ih => exact ih _ (dstep_proj S P d hn).2 (dstep_brk S P d hi hx hn h)
+  | succ n ih => exact ih _ (dstep_proj S P d hn).2 (dstep_ref S P d hi hx hn h)
 
 end YaegiVerif.Proofs.C19
